@@ -8,6 +8,7 @@ import (
 	"strings"
 	"sync"
 	"sync/atomic"
+	"syscall"
 	"time"
 
 	"go.nanomsg.org/mangos/v3"
@@ -238,6 +239,7 @@ func runC20(c *Ctx) {
 	// the application itself: sends exactly the bytes given, the number of times requested
 	dir, _ := os.MkdirTemp("", "verif-c20-")
 	defer os.RemoveAll(dir)
+	runMacatFileFromPipe(c, dir)
 	seq := 0
 	for _, tc := range []struct {
 		name  string
@@ -436,4 +438,39 @@ func runC20(c *Ctx) {
 		}
 	}
 	_ = rp.Close()
+}
+
+// --file names anything that can be read, not only regular files: the bytes a named pipe yields are the message
+func runMacatFileFromPipe(c *Ctx, dir string) {
+	for i, n := range []int{40, 0, 5000} {
+		fifo := filepath.Join(dir, fmt.Sprintf("fifo%d", i))
+		if err := syscall.Mkfifo(fifo, 0o600); err != nil {
+			return
+		}
+		payload := patterned(uint64(2000+i), n)
+		go func() {
+			f, err := os.OpenFile(fifo, os.O_WRONLY, 0)
+			if err != nil {
+				return
+			}
+			_, _ = f.Write(payload)
+			_ = f.Close()
+		}()
+		addr := fmt.Sprintf("inproc://verif-c20-fifo-%d-%d", c.Seed, i)
+		rx, _ := pull.NewSocket()
+		_ = rx.SetOption(mangos.OptionRecvDeadline, 500*time.Millisecond)
+		if err := rx.Listen(addr); err != nil {
+			continue
+		}
+		args := []string{"--push", "--connect", addr, "--file", fifo}
+		_, err, finished := macatRun(args...)
+		m, rerr := rx.Recv()
+		_ = rx.Close()
+		ok := finished && err == nil && rerr == nil && bytes.Equal(m, payload)
+		c.Class(fmt.Sprintf("send file-from-pipe len=%d ok=%v", n, ok), true)
+		if !ok {
+			c.Violate(fmt.Sprintf("macat --file <named pipe yielding %d bytes>: sent %d bytes (recv err %v, run err %v, finished %v) — not the bytes the file yields", n, len(m), rerr, err, finished),
+				map[string]interface{}{"args": args, "payload_len": n})
+		}
+	}
 }
